@@ -50,6 +50,7 @@ fn run_val(v: &Val, prefill: &[u8]) -> (W, W, W, Result<Vec<u8>, String>) {
         Val::TlvTuple(k, _) => write_with(&(*k, bytes.as_slice()), prefill),
         Val::TlvTupleType(t, _) => write_with(&(TYPES[*t], bytes.as_slice()), prefill),
         Val::Section(_) => write_with(&v2::TypeLengthValues::from(bytes.as_slice()), prefill),
+        Val::SectionAdv(_, k) => write_with(&crate::hist::advanced(bytes.as_slice(), *k), prefill),
         Val::Type(t) => write_with(&TYPES[*t], prefill),
     }
 }
@@ -175,10 +176,10 @@ fn gen(stream_name: &str, idx: u64, rng: &mut Rng) -> (Val, Blob) {
         "c20-slices" => {
             let l = [0usize, 1, 2, 65534, 65535, 65536, 65537, 70000][(idx % 8) as usize];
             let b = Blob::new(rng.next() >> 16, l);
-            if (idx / 8) % 2 == 0 {
-                Val::Bytes(b)
-            } else {
-                Val::Section(Blob::new(b.seed, l.min(65535)))
+            match (idx / 8) % 3 {
+                0 => Val::Bytes(b),
+                1 => Val::Section(Blob::new(b.seed, l.min(65535))),
+                _ => Val::SectionAdv(Blob::new(b.seed, l.min(65535)), 1 + (idx / 24 % 3) as u8),
             }
         }
         _ => rand_val(rng, true),
@@ -200,7 +201,7 @@ impl Monitor for C20 {
         vec![
             exhaustive("c20-ints", 12 * 8 * tier.n(1, 4, 40)),
             exhaustive("c20-tlv-types", if tier == Tier::Miri { 64 } else { 256 * 6 * 3 }),
-            exhaustive("c20-slices", if tier == Tier::Miri { 4 } else { 16 * tier.n(1, 2, 10) }),
+            exhaustive("c20-slices", if tier == Tier::Miri { 6 } else { 72 * tier.n(1, 1, 10) }),
             stream("c20-rand", tier.n(60, 300_000, 30_000_000)),
         ]
     }
@@ -223,6 +224,7 @@ impl Monitor for C20 {
             "oracle:bytes|encodable|prefill=0",
             "oracle:addr|encodable|prefill>16",
             "oracle:section|encodable|prefill=0",
+            "oracle:section-advanced|encodable|prefill=0",
             "oracle:type|encodable|prefill=0",
             "oracle:tuplet|encodable|prefill=0",
         ]
